@@ -76,7 +76,22 @@ def serve_dataset(args):
     stub.fraction = bool(opts.get("fraction"))        # durations / distances served as t - 0.8 (the server takes the ceiling)
     srv = None
     try:
+        away = None
+        if opts.get("start_incomplete"):
+            # the server STARTS on a directory without its stop file (data status: no nodes), is asked once, then the file is
+            # put back and everything refreshed over HTTP: all three endpoints must follow the new data status
+            for name in ("nodes.capnpbin",):
+                if os.path.exists(os.path.join(cache, name)):
+                    away = (os.path.join(cache, name), os.path.join(workdir, name + ".away"))
+                    os.replace(*away)
         srv = l3.Server(binary, cache, stub.port, threads=opts.get("threads", 1), cache_all=opts.get("cache_all", False))
+        if away:
+            first = [o for o in ops if o[0] == "route"]
+            if first:
+                stub.set_tables(first[0][3], first[0][4])
+                info["before_refresh"] = [srv.get(l3.route_qs(first[0][1], False))[0], srv.get(l3.summary_qs(first[0][1], False))[0]]
+            os.replace(away[1], away[0])
+            info["refresh_status"] = srv.get("/updateCache?names=all", timeout=60)[0]
         for op in ops:
             if op[0] == "route":
                 _, q, alt, acc, egr = op
